@@ -1095,7 +1095,8 @@ def keyword_frames(big):
     for k in _KW_CACHE["kw"]:
         low = [c + 32 if 65 <= c <= 90 else c for c in k]
         multi = 32 in k
-        frames = [(S("1 "), S(" 1")), (S(""), S("(1)")), (S("select "), S(""))]
+        frames = [(S("1 "), S(" 1")), (S(""), S("(1)")), (S("select "), S("")),
+                  (S("1 "), S(".x")), (S("1 "), S("`x`")), (S("x."), S(" 1"))]         # word delimiters around the key
         if multi or big:
             frames += [(S("1 "), S(" 'x'")), (S("1;"), S(" 1")), (S("1 "), S(" (1)")), (S(""), S("")), (S("1; "), S(" function f")), (S("'; "), S(" view v"))]
         for pre, post in frames:
@@ -1618,6 +1619,30 @@ def c14(tier, sc):
     for _ in range(30000 if big else 3000):
         k = r.randint(5, 40)
         inputs.append(vgen.b(" ".join(r.choice(allw) for _ in range(k))))
+    # near-keyword words: every key of the current table bent into a plain word that is itself neither a key nor a
+    # component of one (components joined by '_', a '_' / digit / letter glued on either side, the key doubled)
+    import re as _re
+    near = set()
+    for e in tables["keywords"]:
+        if e["val"] == 70:
+            continue
+        k = bytes(e["key"]).decode("latin1").lower()
+        if not _re.fullmatch(r"[a-z0-9_ ]+", k):
+            continue
+        j = k.replace(" ", "_")
+        for w in (j if " " in k else None, j + "_", "_" + j, j + "1", "x" + j, j + "x", j + "_" + j, j.upper() if " " in k else None,
+                  j.replace("_", "__") if "_" in j else None):
+            if w and _re.fullmatch(r"[A-Za-z_][A-Za-z0-9_]*", w) and len(w) <= 31 and w.upper() not in comp:
+                near.add(w)
+    near = sorted(near)
+    if not big:
+        near = [w for w in near if "_" in w.strip("_") or r.random() < 0.25]
+    filler = [w for w in ("hello", "x9", "Bob_1") if w.upper() not in comp]
+    if len(filler) >= 2:
+        a, b2 = filler[0], filler[1]
+        for w in near:
+            for t in ("%s", a + " %s 7", "7 %s " + a, "%s 7 " + a, a + " " + b2 + " %s", "%s " + a):
+                inputs.append(vgen.b(t % w))
     res = sqli_api(sc, vh, inputs)
     nn = 0
     for x, rr in zip(inputs, res):
@@ -1626,7 +1651,7 @@ def c14(tier, sc):
         nn += 1
         if rr["sqli"] or rr["fp"] != "":
             rep.violation("IsSQLi(%r) = (%s, %r) for plain words and numbers" % (show(x), rr["sqli"], rr["fp"]), {"kind": "sqli.c14", "a": x})
-    rep.part("real", model_cases=len(cases), evaluated=nn, word_pool=pool)
+    rep.part("real", model_cases=len(cases), evaluated=nn, word_pool=pool, near_keyword_words=len(near))
     rep.cov["traces_validated_against_impl"] = nn
     rep.cov["evaluations"] = nn
     for x in inputs[100:102] + inputs[-2:]:
@@ -1813,26 +1838,39 @@ def c05(tier, sc):
             q = g["queues"]
             queues = [q[str(p)] for p in procs] if isinstance(q, dict) else q
             cases.append({"queues": queues, "sched": g["sched"] if len(procs) > 1 else [], "how": name})
-    cfile = sc.path("cases.ndjson")
-    write_ndjson(cfile, cases)
-    out = sc.path("cases-out.ndjson")
-    rc, o = run([vhr, "api-run", pfile, cfile, out], timeout=3000, env={"GORACE": "halt_on_error=0 exitcode=66"})
+    # forced on the real code (race-detector build), in parallel chunks (each chunk is its own process)
+    nchunk = max(1, min(vlib.NCPU, len(cases) // 200))
+    per = (len(cases) + nchunk - 1) // nchunk
+    chunks = [(a, cases[a:a + per]) for a in range(0, len(cases), per)]
     race_reports = []
     crashes = []
-    if "DATA RACE" in o:
-        race_reports.append(o[-6000:])
-    if rc != 0 and ("fatal error" in o or "panic:" in o or "SIGSEGV" in o):
-        crashes.append(("scheduled / history replay", o[-4000:]))
-    elif rc != 0 and "DATA RACE" not in o:
-        raise ToolFailure("api-run failed: " + o[-2000:])
+
+    def run_chunk(j):
+        a, cs = chunks[j]
+        cfile = sc.path("cases-%d.ndjson" % j)
+        write_ndjson(cfile, cs)
+        out = sc.path("cases-out-%d.ndjson" % j)
+        rc, o = run([vhr, "api-run", pfile, cfile, out], timeout=3000, env={"GORACE": "halt_on_error=0 exitcode=66"})
+        return rc, o, (read_ndjson(out) if os.path.exists(out) else [])
+    with ThreadPoolExecutor(max_workers=nchunk) as ex:
+        chunk_res = list(ex.map(run_chunk, range(len(chunks))))
     ncalls = 0
-    results = read_ndjson(out) if os.path.exists(out) else []
-    for ci, (c, r) in enumerate(zip(cases, results)):
-        for ob in r["calls"]:
-            trace.append({"ev": "call", "case": ci, "how": c["how"], "g": ob["g"], "idx": ob["idx"], "id": ob["id"], "res": ob["res"],
-                          "fp": ob["fp"], "events": ob["events"], "panic": ob["panic"]})
-            ncalls += 1
-        trace.append({"ev": "tables", "digest": r["tables"], "case": ci})
+    for (a, cs), (rc, o, results) in zip(chunks, chunk_res):
+        if "DATA RACE" in o:
+            race_reports.append(o[-6000:])
+        if rc != 0 and ("fatal error" in o or "panic:" in o or "SIGSEGV" in o):
+            crashes.append(("scheduled / history replay", o[-4000:]))
+        elif rc != 0 and "DATA RACE" not in o:
+            raise ToolFailure("api-run failed: " + o[-2000:])
+        elif len(results) != len(cs) and "DATA RACE" not in o:
+            raise ToolFailure("api-run returned %d of %d cases" % (len(results), len(cs)))
+        for k, (c, r) in enumerate(zip(cs, results)):
+            ci = a + k
+            for ob in r["calls"]:
+                trace.append({"ev": "call", "case": ci, "how": c["how"], "g": ob["g"], "idx": ob["idx"], "id": ob["id"], "res": ob["res"],
+                              "fp": ob["fp"], "events": ob["events"], "panic": ob["panic"]})
+                ncalls += 1
+            trace.append({"ev": "tables", "digest": r["tables"], "case": ci})
     # the assumption of Api.tla (calls share no variable) audited on the source: package-level variables that
     # a function other than init() may modify.  Evidence, and a reason to explore deeper -- never a verdict.
     rc, o = run([vh, "audit", vlib.REPO], timeout=120)
